@@ -112,7 +112,7 @@ fn nontrivial(c: &Case) -> bool {
 }
 
 pub fn run(ctx: &Ctx) {
-    ctx.set_rule("differential: Scope::raw(path, serialised children) vs Scope::new(path, children); PackageBuilder filled element by element vs Package::new; String vs &'static str; usize vs u64 -- byte-for-byte equality (neither side is trusted; C06/C07 judge absolute correctness). Exhaustive: every body size 0..4200 and 2^20 +- 16 for both pairs, all path shapes with 1..255 segments; generated: child/element lists from the C06 generator, 0..255 elements. Non-trivial = >= 2 children/elements or a body within +-6 of a PkgLength boundary; distinct by hash.");
+    ctx.set_rule("differential: Scope::raw(path, serialised children) vs Scope::new(path, children); PackageBuilder filled element by element vs Package::new; String vs &'static str; usize vs u64 -- byte-for-byte equality (neither side is trusted; C06/C07 judge absolute correctness). Exhaustive: every body size 0..4200 and 2^20 +- 16 for both pairs, all path shapes with 1..255 segments; generated: child/element lists from the C06 generator, 0..255 elements. Non-trivial = >= 2 children/elements or a body within +-6 of a PkgLength boundary; distinct by hash. Strings are arbitrary Rust strings (NUL, control and non-ASCII characters included): the owned and the borrowed impl must agree on all of them. Builders are re-used after a refused element.");
     let mut cases: Vec<Case> = Vec::new();
     let p = PathCase { rooted: true, segs: vec!["_SB_".into(), "PCI0".into()] };
     let sizes: Vec<u32> = (0..=4200).collect();
